@@ -7,4 +7,7 @@ GenRoleCfgs == {Cfg("r", "r", "s"), Cfg("r", "s", "n"), Cfg("s", "s", "n"), Cfg(
                 Cfg("r", "r", "r"), Cfg("b", "s", "n"), Cfg("n", "s", "r")}
 \* limit scenarios: one upstream node, two nodes competing for its single children / nephew slot
 GenLimitCfgs == {Cfg("r", "s", "s"), Cfg("s", "n", "n")}
+\* upstream scenarios: one node with two candidates for its single parent slot -- the second answer finds
+\* the slot taken, the node asks that peer to be its uncle instead (handleP2PConnectionResponse retry)
+GenUpstreamCfgs == {Cfg("r", "r", "s"), Cfg("s", "s", "n")}
 ====
